@@ -130,6 +130,31 @@ pub fn init_regexp_prototype(interp: &mut Interpreter) {
 
     interp.register_method(&proto, "test", regexp_test, 1);
     interp.register_method(&proto, "exec", regexp_exec, 1);
+    interp.register_method(&proto, "toString", regexp_to_string, 0);
+}
+
+/// RegExp.prototype.toString: `/source/flags`
+pub fn regexp_to_string(
+    interp: &mut Interpreter,
+    this: JsValue,
+    _args: &[JsValue],
+) -> Result<Guarded, JsError> {
+    let JsValue::Object(ref obj) = this else {
+        return Err(JsError::type_error("this is not a RegExp"));
+    };
+    let text = match &obj.borrow().exotic {
+        ExoticObject::RegExp { pattern, flags, .. } => {
+            let source = if pattern.is_empty() {
+                "(?:)".to_string()
+            } else {
+                pattern.to_string()
+            };
+            format!("/{}/{}", source, flags)
+        }
+        _ => return Err(JsError::type_error("this is not a RegExp")),
+    };
+    let _ = interp;
+    Ok(Guarded::unguarded(JsValue::String(JsString::from(text))))
 }
 
 /// Create RegExp constructor
